@@ -1,7 +1,212 @@
 import KM.Driver.Core
-/-! Driver for C13 (stub until the property's model is built). -/
+import KM.Model.Redirect
+/-! Driver for C13.  Strings travel hex-encoded as raw bytes; byte `b` is embedded as
+`Char.ofNat b` (the model's alphabet, see `KM.Model.Redirect`). -/
 namespace KM.Driver.C13
+open KM.Util KM.Redirect
 
-def handler (_mode : String) : Option Handler := none
+def bytesToChars (bs : List UInt8) : List Char := bs.map (fun b => Char.ofNat b.toNat)
+def charsToBytes (cs : List Char) : List UInt8 := cs.map (fun c => UInt8.ofNat (c.toNat % 256))
+
+def unhexC (s : String) : Option (List Char) := (unhexB s).map bytesToChars
+def hexC (cs : List Char) : String := hexB (charsToBytes cs)
+
+/-- list field: "." = empty list, otherwise hex items separated by ',' -/
+def unhexList (s : String) : Option (List (List Char)) :=
+  if s == "." then some [] else (s.splitOn ",").mapM unhexC
+
+/-- regexp verdicts of one client: "." = no patterns, otherwise one of `1 0 e` per pattern -/
+def parseRes (s : String) : Option (List (Option Bool)) :=
+  if s == "." then some [] else
+  s.toList.mapM fun c => if c == '1' then some (some true) else if c == '0' then some (some false)
+    else if c == 'e' then some none else none
+
+structure Cfg where
+  name : String
+  client : Client
+
+abbrev St := List Cfg
+
+/-- pattern i of a driver-side client is the token `[Char.ofNat i]`; the oracle looks it up -/
+def oracle (res : List (Option Bool)) (p : List Char) : Option Bool :=
+  match p with
+  | [c] => (res[c.toNat]?).getD none
+  | _ => none
+
+def idxPatterns (n : Nat) : List (List Char) := (List.range n).map (fun i => [Char.ofNat i])
+
+def mkCfg (name : String) (doms : List (List Char)) (npat : Nat) : Cfg :=
+  { name := name, client := { id := name.toList, domains := doms, patterns := idxPatterns npat } }
+
+def parseParsed : List String → Option (Option Parsed)
+  | [e, a, b, c, d] =>
+    if e == "1" then some none else
+    match unhexC a, unhexC b, unhexC c, unhexC d with
+    | some sa, some sb, some sc, some sd => some (some { scheme := sa, host := sb, rawQuery := sc, path := sd })
+    | _, _, _, _ => none
+  | _ => none
+
+def verdictStr : Verdict → String
+  | .accept => "A" | .reject => "R" | .error => "E"
+
+/-- which test of `CanRedirectToURL` answered (coverage histogram only) -/
+def why (re : List Char → Option Bool) (c : Client) (p : Option Parsed) : String :=
+  if c.domains.length < 1 ∧ c.patterns.length < 1 then "noconfig"
+  else match reLoop re c.patterns with
+    | none => "re-error"
+    | some m =>
+      match p with
+      | none => "parse-error"
+      | some u =>
+        if u.scheme ≠ https then "scheme"
+        else if u.rawQuery.length > 0 then "query"
+        else if hasDotDot u.path then "dotdot"
+        else if u.host = [] then "empty-host"
+        else if c.domains.length < 1 then (if m then "accept-re" else "re-nomatch")
+        else if !(c.domains.any (fun d => hostMatches u.host d)) then "domain-nomatch"
+        else if c.patterns.length < 1 then "accept-domain"
+        else if m then "accept-both" else "re-nomatch"
+
+def findCfg (st : St) (name : String) : Option Cfg := st.find? (fun c => c.name == name)
+
+def cfgOp (st : St) : List String → St × String
+  | [name, d, np] =>
+    match unhexList d, np.toNat? with
+    | some doms, some n => (st ++ [mkCfg name doms n], "ok")
+    | _, _ => (st, "bad-op")
+  | _ => (st, "bad-op")
+
+def zipRes : St → List String → Option (List (Cfg × List (Option Bool)))
+  | [], [] => some []
+  | c :: cs, r :: rs =>
+    match parseRes r, zipRes cs rs with
+    | some res, some rest => if res.length = c.client.patterns.length then some ((c, res) :: rest) else none
+    | _, _ => none
+  | _, _ => none
+
+/-- `dec e scheme host rawq path res₁ … resₙ` ↦ per client `<A|R|E><cors>/<why>` and `g<generic cors>` -/
+def decOp (st : St) (fs : List String) : String :=
+  match parseParsed (fs.take 5), zipRes st (fs.drop 5) with
+  | some p, some crs =>
+    let parts := crs.map fun (c, res) =>
+      verdictStr (decide (oracle res) c.client p) ++ boolStr (corsAllowed c.client.domains p) ++ "/" ++
+        why (oracle res) c.client p
+    " ".intercalate parts ++ " g" ++ boolStr (genericCorsAllowed (st.map (·.client)) p)
+  | _, _ => "bad-op"
+
+def parseOp : List String → String
+  | [h] =>
+    match unhexC h with
+    | some s =>
+      match goParse s with
+      | none => "1 - - - -"
+      | some p => s!"0 {hexC p.scheme} {hexC p.host} {hexC p.rawQuery} {hexC p.path}"
+    | none => "bad-op"
+  | _ => "bad-op"
+
+def modelStep (st : St) : List String → St × String
+  | "cfg" :: rest => cfgOp st rest
+  | "dec" :: rest => (st, decOp st rest)
+  | "parse" :: rest => (st, parseOp rest)
+  | _ => (st, "bad-op")
+
+/-! ### judge: the predicates of c13_decision / c13_string / c13_cors on what the real code returned -/
+
+def bhStr : BHost → String
+  | .fail => "fail" | .domain h => "domain:" ++ hexC h | .ipv6 h => "ipv6:" ++ hexC h
+
+/-- the browser goes nowhere, or to the host Go matched (lower-cased) -/
+def agrees (s host : List Char) : Bool :=
+  browserHost s == .fail || browserHost s == .domain (lower host) || browserHost s == .ipv6 (lower host)
+
+/-- the host the browser ends at is a configured domain or a dot-subdomain of one -/
+def browserInDomains (s : List Char) (doms : List (List Char)) : Bool :=
+  match browserHost s with
+  | .fail => true
+  | .domain h => doms.any (fun d => hostMatches h (lower d))
+  | .ipv6 h => doms.any (fun d => hostMatches h (lower d))
+
+def problems (l : List (Bool × String)) : String :=
+  match (l.filter (fun x => !x.1)).map (·.2) with
+  | [] => "ok"
+  | ps => "viol " ++ ",".intercalate ps
+
+/-- `acc name url res scheme host rawq path`: the real `CanRedirectToURL` accepted `url` -/
+def accOp (st : St) : List String → String
+  | [name, hu, r, a, b, c, d] =>
+    match findCfg st name, unhexC hu, parseRes r, parseParsed ["0", a, b, c, d] with
+    | some cfg, some s, some res, some (some u) =>
+      let doms := cfg.client.domains
+      let v := problems [
+        (u.scheme == https, "scheme-not-https"),
+        (u.rawQuery == [], "has-query"),
+        (!hasDotDot u.path, "dotdot-in-path"),
+        (u.host != [], "empty-host"),
+        (doms.isEmpty || doms.any (fun dm => hostMatches u.host dm), "host-not-in-domains"),
+        (res.isEmpty || res.any (· == some true), "no-pattern-matched"),
+        (!(doms.isEmpty && res.isEmpty), "no-config"),
+        (agrees s u.host, "browser-host-differs"),
+        (doms.isEmpty || browserInDomains s doms, "browser-host-not-in-domains")]
+      v ++ " browser=" ++ bhStr (browserHost s)
+    | _, _, _, _ => "bad-op"
+  | _ => "bad-op"
+
+/-- `cors name url scheme host` / `gcors url scheme host`: the real CORS test answered true -/
+def corsJudge (doms : List (List Char)) (s scheme host : List Char) : String :=
+  problems [
+    (scheme == https, "scheme-not-https"),
+    (doms.any (fun dm => hostMatches host dm), "host-not-in-domains"),
+    (agrees s host, "browser-host-differs"),
+    (browserInDomains s doms, "browser-host-not-in-domains")]
+
+def corsOp (st : St) : List String → String
+  | [name, hu, a, b] =>
+    match findCfg st name, unhexC hu, unhexC a, unhexC b with
+    | some cfg, some s, some sc, some h => corsJudge cfg.client.domains s sc h
+    | _, _, _, _ => "bad-op"
+  | _ => "bad-op"
+
+def gcorsOp (st : St) : List String → String
+  | [hu, a, b] =>
+    match unhexC hu, unhexC a, unhexC b with
+    | some s, some sc, some h => corsJudge (st.flatMap (·.client.domains)) s sc h
+    | _, _, _ => "bad-op"
+  | _ => "bad-op"
+
+def hexLow (n : Nat) : Char := hexDigit n
+
+/-- net/http `hexEscapeNonASCII` on bytes -/
+def escNonASCII (l : List Char) : List Char :=
+  l.flatMap fun c => if c.toNat < 0x80 then [c] else ['%', hexLow (c.toNat / 16 % 16), hexLow (c.toNat % 16)]
+
+/-- `loc name url location gohost`: the authorize handler answered 302 with this `Location`;
+`gohost` is the `Hostname()` Go reported for the redirect_uri -/
+def locOp (st : St) : List String → String
+  | [name, hu, hl, hh] =>
+    match findCfg st name, unhexC hu, unhexC hl, unhexC hh with
+    | some cfg, some s, some loc, some host =>
+      let doms := cfg.client.domains
+      let pre := escNonASCII s ++ "?code=".toList
+      problems [
+        (pre.isPrefixOf loc, "location-is-not-redirect-uri-plus-code"),
+        (host != [], "empty-host"),
+        (agrees loc host, "location-browser-host-differs"),
+        (browserHost loc == browserHost s, "location-host-differs-from-redirect-uri-host"),
+        (doms.isEmpty || browserInDomains loc doms, "location-host-not-in-domains")]
+    | _, _, _, _ => "bad-op"
+  | _ => "bad-op"
+
+def judgeStep (st : St) : List String → St × String
+  | "cfg" :: rest => cfgOp st rest
+  | "acc" :: rest => (st, accOp st rest)
+  | "cors" :: rest => (st, corsOp st rest)
+  | "gcors" :: rest => (st, gcorsOp st rest)
+  | "loc" :: rest => (st, locOp st rest)
+  | _ => (st, "bad-op")
+
+def handler (mode : String) : Option Handler :=
+  if mode == "model" then some { σ := St, init := [], step := modelStep }
+  else if mode == "judge" then some { σ := St, init := [], step := judgeStep }
+  else none
 
 end KM.Driver.C13
